@@ -6,7 +6,7 @@ import OxyModel.Model.ConnLimit
 `RL.BucketSet.consume/update`, `TTL.Map.get/set` and `ConnLimit.step` — the definitions the theorems
 are about.
 
-    cfg rate <p:a:b[,p:a:b…]> cap=<n> [solo=1]
+    cfg rate <p:a:b[,p:a:b…]> cap=<n>|cap=default [solo=1]
       at <ns> req <src> <amount> [rates=<…>] [evict=<src>]   -> 200 | 429 <delay_ns> | 500   [solo=<…>]
       retry [extra=<ns>]                                      -> <resp> t=<ns> | noretry
       at <ns> preq <src> <amount> <n> <goroutines> [rates=<…>] -> 200=<a> 429=<b> 500=<c>
@@ -271,6 +271,8 @@ def init (f : List String) : St × String :=
   | "cfg" :: "rate" :: rates :: _ =>
     match parseRates rates with
     | some (r :: rs) =>
+      -- `cap=default` / no `cap=`: no Capacity option, `setDefaults` gives DefaultCapacity; `cap=0` is rejected by the option
+      if Driver.kv f "cap" == some "0" then (.dead, "err badcap") else
       let cap := Driver.kvNat f "cap" 0
       let l := HLimiter.new (r :: rs) cap
       (.rate { hl := l, cap := cap, solo := if Driver.kvNat f "solo" 0 = 1 then some [] else none, now := 0, last := none }, "ok")
